@@ -183,6 +183,13 @@ pub fn export_request_to_data_points(
 /// Convert OTLP export request directly to Arrow RecordBatch.
 pub fn export_request_to_arrow(request: &ExportMetricsServiceRequest) -> Result<RecordBatch> {
     let points = export_request_to_data_points(request);
+    // OTLP timestamps are unsigned: a negative value here means `time_unix_nano`
+    // did not fit into signed nanoseconds and wrapped around.
+    if points.iter().any(|p| p.timestamp_nanos < 0) {
+        return Err(crate::Error::InvalidSchema(
+            "Data point timestamp is out of range".into(),
+        ));
+    }
     data_points_to_arrow(points)
 }
 
